@@ -142,26 +142,22 @@ def run(c, facts, tier):
     units_rules(c, facts, "C19.units")
     # C19.bytes
     fb = facts.fn("Size::byte_size")
-    stmts = fb.body["stmts"]
+    tail = rx.tail_expr(fb.body)
     ok = None
     det = "shape not recognised"
-    if len(stmts) == 2 and stmts[0]["k"] == "let" and rx.is_var(stmts[0]["init"], "self"):
-        cases = rx.pat_cases(stmts[0]["pat"])
-        vs = sorted(rx.pat_variant(p)[0].split("::")[-1] for p in cases if rx.pat_variant(p))
-        bn = {tuple(rx.pat_bindings(p)) for p in cases}
-        tail = rx.peel(stmts[1]["e"])
-        cover = vs == sorted(facts.variants("Size")) and len(bn) == 1 and len(list(bn)[0]) == 1
-        shape = False
-        if cover:
-            s_ = list(bn)[0][0]
-            if tail["k"] == "binary" and tail["op"] == "*":
-                ops = [tail["lhs"], tail["rhs"]]
-                shape = any(rx.is_var(o, s_) for o in ops) and any(o["k"] == "mcall" and o["m"] == "mult" and rx.is_var(o["recv"], "self") for o in [rx.peel(x) for x in ops])
-            elif tail["k"] == "mcall" and tail["m"] in ("checked_mul", "saturating_mul", "wrapping_mul"):
-                shape = False
-            # widening / checked forms: s.checked_mul(self.mult()).expect / (s as u128 * ..)
-        ok = cover and shape
-        det = "binds the count of %s; returns `%s`" % (vs, src(tail))
+    if tail is not None:
+        tail = rx.peel(tail)
+        if tail["k"] == "binary" and tail["op"] == "*":
+            ops = [rx.peel(tail["lhs"]), rx.peel(tail["rhs"])]
+            unit = [o for o in ops if o["k"] == "mcall" and o["m"] == "mult" and rx.is_var(o["recv"], "self") and not o["args"]]
+            cnt = [o for o in ops if not (o["k"] == "mcall" and o["m"] == "mult")]
+            ok = len(unit) == 1 and len(cnt) == 1 and rx.self_payload(facts, "Size", fb, cnt[0])
+            extra = [st for st in fb.body["stmts"][:-1] if not (st["k"] == "let" and st.get("init") is not None and rx.is_var(st["init"], "self"))]
+            ok = ok and not extra
+            det = "returns `%s`: the count is the payload of self for every variant of Size: %s" % (src(tail), ok)
+        else:
+            ok = False
+            det = "returns `%s`, not count * self.mult()" % src(tail)
     c.ob("C19.bytes", fb.key, "count × mult() for every variant", ok, det)
     c.floor("Size+TimeSpec variants", len(facts.variants("Size")) + len(facts.variants("TimeSpec")), 11)
     # positive control: a disjunction with && is rejected by or_operands
